@@ -83,7 +83,8 @@ impl OperationControl for Repeat {
     ) -> Box<dyn Iterator<Item = usize> + 'a> {
         let mut iterators: Vec<Box<dyn Iterator<Item = usize>>> = Vec::new();
         let mut positions = Vec::new();
-        let bound = self.max.min(matcher.search.len() - position + 1);
+        // a precondition may be evaluated at a fixed position beyond the input
+        let bound = self.max.min((matcher.search.len() + 1).saturating_sub(position));
         let mut p = position;
         if self.greedy {
             // Prime the arrays first with iterators up to the maximum length,
